@@ -147,6 +147,29 @@ func ruleGuardedBy(r *Run, rule string) {
 	if len(l.classes) != 13 {
 		r.add(rule, "classes:floor", "-", fmt.Sprintf("%d structs with a mutex found, expected 13", len(l.classes)), Floor)
 	}
+	// fields published through sync.Once: every write of the field lies in a function literal passed to (*sync.Once).Do
+	oncePublished := map[string]bool{}
+	{
+		writes := map[string][]*ssa.Function{}
+		for _, fn := range w.Funcs {
+			for _, a := range l.accesses[fn] {
+				if a.Write && !a.Local {
+					writes[a.Class+"."+a.Field] = append(writes[a.Class+"."+a.Field], fn)
+				}
+			}
+		}
+		for k, fns := range writes {
+			all := len(fns) > 0
+			for _, fn := range fns {
+				if !isOnceBody(w, fn) {
+					all = false
+				}
+			}
+			if all {
+				oncePublished[k] = true
+			}
+		}
+	}
 	// entry requirements per function
 	reqs := map[*ssa.Function][]lockReq{}
 	for _, fn := range w.Funcs {
@@ -158,6 +181,13 @@ func ruleGuardedBy(r *Run, rule string) {
 			}
 			if _, ok := syncExempt[k]; ok {
 				continue
+			}
+			if oncePublished[k] {
+				// a field created inside sync.Once.Do and read only after a Do on the same Once: the Once is the
+				// synchronisation (every reader sees the fully initialised value)
+				if onceAccessOK(w, fn, a.In, a.Write) {
+					continue
+				}
 			}
 			need := a.Base + "." + l.classes[a.Class].MuField
 			mode := modeR
@@ -583,6 +613,45 @@ func ruleStaleActs(r *Run, rule string) {
 	if instances < 1 {
 		r.add(rule, "stale:floor", "-", "no function with two critical sections of one mutex found (the double-checked segment cache is expected)", Floor)
 	}
+}
+
+// isOnceBody: fn is a function literal whose only use is as the argument of (*sync.Once).Do.
+func isOnceBody(w *World, fn *ssa.Function) bool {
+	parent := fn.Parent()
+	if parent == nil {
+		return false
+	}
+	used, once := 0, 0
+	allInstrs(parent, func(in ssa.Instruction) {
+		mc, ok := in.(*ssa.MakeClosure)
+		if !ok || mc.Fn != ssa.Value(fn) {
+			return
+		}
+		for _, ref := range *mc.Referrers() {
+			used++
+			if call, ok := ref.(ssa.CallInstruction); ok && calleeName(call.Common()) == "(*sync.Once).Do" {
+				once++
+			}
+		}
+	})
+	return used > 0 && used == once
+}
+
+// onceAccessOK: a write inside a Once body, or a read that follows a call of (*sync.Once).Do in the same function.
+func onceAccessOK(w *World, fn *ssa.Function, at ssa.Instruction, write bool) bool {
+	if isOnceBody(w, fn) {
+		return true
+	}
+	if write {
+		return false
+	}
+	ok := false
+	allInstrs(fn, func(in ssa.Instruction) {
+		if call, isCall := in.(*ssa.Call); isCall && calleeName(call.Common()) == "(*sync.Once).Do" && domInstr(in, at) {
+			ok = true
+		}
+	})
+	return ok
 }
 
 func lastSeg(s string) string {
